@@ -220,7 +220,7 @@ func c05Property(rt *rapid.T, ev *evid.Rec, reorgs bool) {
 			}
 		}
 	}
-	nact := rapid.IntRange(4, 20).Draw(rt, "nactions")
+	nact := rapid.IntRange(4, scale(20, 45)).Draw(rt, "nactions")
 	for i := 0; i < nact; i++ {
 		switch a := rapid.IntRange(0, 9).Draw(rt, "action"); {
 		case a <= 1:
